@@ -121,6 +121,41 @@ def build(wb: WB, spec: dict):
         o = wb.job({"x": e}, op="inc", name="/sj")
         wb.out("o", wb.gather(o, sz))
         return {"o": inc(vals)}
+    if k == "filejobs":  # pipeline of k jobs over a file / list of files / object of files
+        kind = spec.get("kind", "file")
+        f = lambda i: {"class": "File", "name": f"in{i}.txt", "content": f"data{i}"}  # noqa: E731
+        v = f(0) if kind == "file" else ([f(0), f(1)] if kind == "list" else {"a": f(0), "b": f(1)})
+        p = wb.inp("a", v)
+        for i in range(spec["k"]):
+            p = wb.job({"x": p}, op="copy", name=f"/f{i}")
+        wb.out("o", p)
+        suf = "+" * spec["k"]
+        return {"o": "data0" + suf if kind == "file" else (["data0" + suf, "data1" + suf] if kind == "list"
+                                                             else {"a": "data0" + suf, "b": "data1" + suf})}
+    if k == "filescatter":  # A(file list) -> scatter -> B_i -> gather -> C
+        n = spec["n"]
+        v = [{"class": "File", "name": f"in{i}.txt", "content": f"data{i}"} for i in range(n)]
+        p = wb.inp("a", v)
+        a = wb.job({"x": p}, op="copy", name="/A")
+        e, sz = wb.scatter(a)
+        b = wb.job({"x": e}, op="copy", name="/B")
+        g = wb.gather(b, sz)
+        wb.out("o", wb.job({"x": g}, op="copy", name="/C"))
+        return {"o": [f"data{i}+++" for i in range(n)]}
+    if k == "filediamond":  # A -> {B, C} -> D over files
+        p = wb.inp("a", {"class": "File", "name": "in0.txt", "content": "data0"})
+        a = wb.job({"x": p}, op="copy", name="/A")
+        b = wb.job({"x": a}, op="copy", name="/B")
+        c = wb.job({"x": a}, op="copy", name="/C")
+        d = wb.job({"b": b, "c": c}, op="pair", name="/D")
+        wb.out("o", d)
+        return {"o": {"b": "data0+++", "c": "data0+++"}}
+    if k == "fileloop":  # loop whose body is a job over a counter and a file (file copied every iteration)
+        p = wb.inp("a", spec.get("start", 0))
+        ext = wb.loop({"x": p}, spec["pred"], lambda w, ports: {"x": w.job({"x": ports["x"]}, op="inc", name="/lj")},
+                      ["x"], method=spec.get("method", "last"))
+        wb.out("o", ext["x"])
+        return {"o": _loop_ref(spec.get("start", 0), spec["pred"], spec.get("method", "last"))}
     if k == "twobranch":  # two scattered job branches joined by a two-input transformer (no combinator)
         vals = list(range(spec["n"]))
         p = wb.inp("a", vals)
@@ -207,6 +242,15 @@ def program_jobs(spec):
         return ["/A/0", "/B/0", "/C/0", "/D/0"]
     if k == "fixeddirs":
         return [f"/fx/0.{i}" for i in range(spec["n"])]
+    if k == "filejobs":
+        return [f"/f{i}/0" for i in range(spec["k"])]
+    if k == "filescatter":
+        return ["/A/0"] + [f"/B/0.{i}" for i in range(spec["n"])] + ["/C/0"]
+    if k == "filediamond":
+        return ["/A/0", "/B/0", "/C/0", "/D/0"]
+    if k == "fileloop":
+        n = len(_loop_ref(spec.get("start", 0), spec["pred"], "all"))
+        return [f"/lj/0.{i}" for i in range(n)]
     if k == "twobranch":
         return [f"/ba/0.{i}" for i in range(spec["n"])] + [f"/bb/0.{i}" for i in range(spec["n"])]
     if k == "seq_job_scatterjobs":
@@ -262,10 +306,23 @@ async def _main(loop, params, res):
         for pn, port in s.get_output_ports().items():
             res["ports"][port.name] = wfkit.port_dump(port)
     res["outputs"] = {n: wfkit.port_dump(p) for n, p in wf.get_output_ports().items()}
+    res["ret_content"] = _content(res.get("ret"))
     try:
         await ctx.close()
     except Exception as e:  # noqa
         res["close_error"] = repr(e)
+
+
+def _content(v):
+    """replace every path of an existing file by the file's content (outputs are compared by content)"""
+    if isinstance(v, list):
+        return [_content(x) for x in v]
+    if isinstance(v, dict):
+        return {k: _content(x) for k, x in v.items()}
+    if isinstance(v, str) and v.startswith("/") and os.path.isfile(v):
+        with open(v) as f:
+            return f.read()
+    return v
 
 
 OBSERVERS = {}
@@ -281,7 +338,7 @@ def observer(name):
 
 def run_once(params, prefix, keep=False):
     res = {}
-    ex = execute(lambda loop: _main(loop, params, res), prefix)
+    ex = execute(lambda loop: _main(loop, params, res), prefix, idle_only=bool(params.get("idle_only")))
     wd = res.get("workdir")
     if wd and not keep:
         shutil.rmtree(wd, ignore_errors=True)
